@@ -540,13 +540,17 @@ class Verifier:
             for label, hyps, f in pst.checks:
                 o = ob('safety', 'in-body obligations: callee preconditions, index bounds')
                 self._discharge(o, hyps, f, inputs, f'{label} [{case_tag}]', c, case)
-            if oc[0] != 'fall':
+            if oc[0] not in ('fall', 'continue'):
                 continue
             normal += 1
             for label, text in c.ensures:
                 o = ob(f'ensures:{label}', text)
                 est = State(dict(pst.env))
                 est.env.update(olds)
+                # a block inside a loop body may end an iteration early: the postcondition can
+                # tell the two ways of leaving the block apart
+                est.env['leaves_by_continue'] = (oc[0] == 'continue')
+                est.count_aggs = list(pst.count_aggs)
                 for k in inputs_alias:
                     est.env[k[len('__input_'):] + '_input'] = pst.env[k]
                 # the contract text speaks with the recorded names
